@@ -109,7 +109,19 @@ fn valid_by_construction(thorough: bool) -> std::collections::HashSet<u64> {
     for (src, _) in operand_sweep() {
         set.insert(fnv64(&src));
     }
+    for c in displaced_for_c04(thorough) {
+        let prog = std::sync::Arc::new(c.prog.clone());
+        let res = crate::mresolve::Resolver::new().resolve_program(&prog);
+        if res.unsupported.is_empty() {
+            set.insert(fnv64(&print_program(&prog, false)));
+        }
+    }
     set
+}
+
+fn displaced_for_c04(thorough: bool) -> Vec<crate::mcheck::Case> {
+    let corpus = crate::metamorph::standard_corpus(if thorough { 1 } else { 8 });
+    crate::metamorph::displaced_cases("programs_after_many_locals", &corpus, &[127, 200], &[0])
 }
 
 fn corpus_sources(ctx: &Ctx, thorough: bool) -> Vec<(&'static str, String)> {
@@ -135,6 +147,12 @@ fn corpus_sources(ctx: &Ctx, thorough: bool) -> Vec<(&'static str, String)> {
     }
     for (src, _) in operand_sweep() {
         v.push(("operand_sweep_at_function_end", src));
+    }
+    // the displacement law (metamorph.rs): programs of the standard corpus as the body of a function that
+    // has declared 127 / 200 locals first - every slot and capture operand of the program near and beyond
+    // the middle of its one-byte range
+    for c in displaced_for_c04(thorough) {
+        v.push(("programs_after_many_locals", print_program(&c.prog, false)));
     }
     // entering a fiber with every kind of argument value (C09's programs): every one of them goes through
     // the conformance run - a function's first instruction has one operand-stack height whatever is passed
